@@ -28,6 +28,10 @@ type Config struct {
 	// OddSources: one source in eight is a 3+-segment source holding percent escapes, reserved
 	// characters or non-ASCII text (left as written; outside C17's domain, inside C09's and C02's).
 	OddSources bool
+	// MixedKinds: one step mapping in six also carries one or two kind-determining keys of other
+	// families (`wait` next to `command`, `trigger` next to `block`, ...). Only for checks that do not
+	// predict the step kind from the generator's plan (C09).
+	MixedKinds bool
 
 	Anchors       bool // aliases and << merges
 	Timestamps    bool // timestamp scalars at Any positions
@@ -94,6 +98,19 @@ func (g *G) s(role string) string {
 	}
 	if role == "cache" && g.coin("pathlike", 3) {
 		return pick(g, "path", pathLike)
+	}
+	if role == "command" && g.coin("lines", 5) {
+		// command text as it comes out of editors and generators: several lines with mixed line endings,
+		// sometimes a dangling carriage return at the end (the next list item is joined on with a line feed)
+		g.feat("command-lines-with-mixed-endings")
+		var b strings.Builder
+		for i, c := 0, g.intn("nlines", 1, 4); i < c; i++ {
+			b.WriteString(pick(g, "linetext", []string{"echo a", "make", "x", "$X", "{{matrix}}", "yes", "# c", "- a", "a: b"}))
+			if i < c-1 || g.coin("trailing", 2) {
+				b.WriteString(pick(g, "eol", []string{"\n", "\r\n", "\r", "\r\r\n", "\n\r", "\r\n\r\n", "\n\n"}))
+			}
+		}
+		return b.String()
 	}
 	return strs.S().Draw(g.T, role)
 }
@@ -544,9 +561,43 @@ func (g *G) AnyMap(depth, cnt int) *yaml.Node {
 	return g.mapping("any", plan)
 }
 
+// kindExtras: kind-determining keys of other families, each with a value its own family accepts.
+func (g *G) kindExtras(used map[string]bool) []ent {
+	if !g.C.MixedKinds || !g.coin("mixedkinds", 6) {
+		return nil
+	}
+	var plan []ent
+	for i, c := 0, g.intn("nkindextras", 1, 2); i < c; i++ {
+		k := pick(g, "kindextra", KindKeys)
+		if used[k] {
+			continue
+		}
+		used[k] = true
+		var f func() *yaml.Node
+		switch k {
+		case "command", "commands":
+			f = func() *yaml.Node { return g.cmdList(true) }
+		case "plugins":
+			f = func() *yaml.Node { return g.plugins() }
+		case "wait", "waiter", "group":
+			f = func() *yaml.Node {
+				if g.coin("kindnull", 2) {
+					return Plain(pick(g, "nulltext", nullTexts))
+				}
+				return g.scalarAny("any")
+			}
+		default:
+			f = func() *yaml.Node { return g.scalarAny("label") }
+		}
+		plan = append(plan, ent{key: k, gen: f})
+		g.feat("keys-of-two-kind-families")
+	}
+	return plan
+}
+
 // extras returns cnt plan entries with unknown keys not in excl.
 func (g *G) extras(used, excl map[string]bool, cnt int) []ent {
-	var plan []ent
+	plan := g.kindExtras(used)
 	for i := 0; i < cnt; i++ {
 		e, ok := g.newKey("anykey", used, excl)
 		if !ok {
